@@ -313,7 +313,7 @@ func fScenarios(thorough bool) []fScenario {
 	var out []fScenario
 	specs := []PolicySpec{SpecDefault}
 	if thorough {
-		specs = []PolicySpec{SpecDefault, SpecNoCache, SpecShared("lru", 1)}
+		specs = []PolicySpec{SpecDefault, SpecNoCache, SpecShared("lru", 1), SpecShared("slru", 2), SpecSKOnly, SpecIKOnly, SpecSessions("slru", 1)}
 	}
 	for _, sp := range specs {
 		for _, prep := range []string{"cold", "warm", "rotating", "revokedIK", "revokedSK", "skOnly", "revokedIKsameMinute", "revokedSKsameMinute"} {
@@ -342,7 +342,7 @@ func CheckF(prop string, ff fFaults) func(r *Report) {
 			}
 			dev := 2
 			if r.Thorough() {
-				dev = 3
+				dev = 4
 			}
 			t0 := time.Now()
 			cfg := explore.Config{Name: "F/" + sc.name + "/" + sc.op, Preemptions: 0, Deviations: dev, Deadline: r.Deadline, MaxViolations: 200,
